@@ -1524,3 +1524,12 @@ Lemma ex_listing_total :
   file_ranked_b w_listed (height 12 w_listed) FA = true /\ file_ranked_b w_listed (height 12 w_listed) FB = true /\
   Nat.ltb (height 12 w_listed FA 0) VISIT_FUEL = true /\ file_wf_b w_listed FA = true.
 Proof. vm_compute. repeat split; reflexivity. Qed.
+
+(** D29: a cross-file copy onto an occupied ROOT fails midway: the members that sort before the clashing
+    name have already been copied (here /c10 becomes a collection of file B although cp raised) *)
+Lemma copy_root_error_partial :
+  let w := run world0 [OCreate FA [] false (tiny 1); OCreate FA ["c10"%string] false (tiny 2);
+                       OCreate FA ["c2"%string] false (tiny 4); OCreate FB ["c2"%string] false (tiny 3)] in
+  let r := cp w FA [] FB [] false in
+  fst r = ERuntime /\ is_cooler w FB ["c10"%string] = TFalse /\ is_cooler (snd r) FB ["c10"%string] = TTrue.
+Proof. vm_compute. repeat split; reflexivity. Qed.
